@@ -76,6 +76,9 @@ type LEmb interface {
 	LI
 	Bar(LT) error
 }
+
+// only LClock's own method mentions package time: a type that merely embeds LClock needs no import of it
+type LClock interface{ Now() time.Time }
 `
 
 var HelperFiles = map[string]string{
@@ -338,6 +341,8 @@ func Corpus(o Options) []Case {
 		sig("variadic of slices", "M(v ...[]byte) int")
 		sig("variadic of funcs", "M(v ...func(int) error)")
 		sig("variadic of foreign", "M(a dep.T, v ...dep.T) dep.T")
+		sig("anonymous interface embedding a local interface", "M(x interface{ LClock; Name() string }) error")
+		sig("anonymous interface embedding local and foreign interfaces", "M() interface{ LClock; dep.I }")
 		sig("param same name as type", "M(LT LT) LT")
 		sig("result func", "M() func(int, ...string) error")
 		sig("many methods", "A(a int) int\n\tB(b string) string\n\tC(c bool) bool\n\tD()")
